@@ -1,6 +1,7 @@
 package main
 
 import (
+	"fmt"
 	"go/token"
 	"go/types"
 	"sort"
@@ -559,26 +560,69 @@ func instrIndex(ins ssa.Instruction) int {
 // without first executing an instruction satisfying barrier. nil when none.
 func reachAvoiding(from ssa.Instruction, startBlock *ssa.BasicBlock,
 	target func(ssa.Instruction) bool, barrier func(ssa.Instruction) bool) ssa.Instruction {
-	type start struct {
-		b *ssa.BasicBlock
-		i int
+	// The walk carries the values of boolean phis whose incoming value on the edge taken is a constant (or another
+	// phi with a carried value): `found = true; break` … `if found` is then followed only along the branch that the
+	// path actually takes. This prunes infeasible paths only; with more than a handful of carried values, or too many
+	// states, the walk falls back to plain reachability.
+	type state struct {
+		b   *ssa.BasicBlock
+		i   int
+		env string
 	}
-	var st start
+	envs := map[string]map[*ssa.Phi]bool{"": {}}
+	keyOf := func(e map[*ssa.Phi]bool) string {
+		if len(e) == 0 {
+			return ""
+		}
+		var parts []string
+		for p, v := range e {
+			parts = append(parts, fmt.Sprintf("%p=%v", p, v))
+		}
+		sort.Strings(parts)
+		k := strings.Join(parts, ",")
+		if _, ok := envs[k]; !ok {
+			cp := map[*ssa.Phi]bool{}
+			for p, v := range e {
+				cp[p] = v
+			}
+			envs[k] = cp
+		}
+		return k
+	}
+	var st state
 	if from != nil {
-		st = start{from.Block(), instrIndex(from) + 1}
+		st = state{from.Block(), instrIndex(from) + 1, ""}
 	} else {
-		st = start{startBlock, 0}
+		st = state{startBlock, 0, ""}
 	}
-	seen := map[*ssa.BasicBlock]bool{}
-	queue := []start{st}
+	type seenKey struct {
+		b   *ssa.BasicBlock
+		env string
+	}
+	seen := map[seenKey]bool{}
+	queue := []state{st}
+	nStates := 0
 	for len(queue) > 0 {
 		cur := queue[0]
 		queue = queue[1:]
 		if cur.i == 0 {
-			if seen[cur.b] {
+			k := seenKey{cur.b, cur.env}
+			if seen[k] {
 				continue
 			}
-			seen[cur.b] = true
+			seen[k] = true
+		}
+		nStates++
+		precise := nStates < 4000
+		if !precise && cur.env != "" {
+			cur.env = ""
+			k := seenKey{cur.b, ""}
+			if cur.i == 0 {
+				if seen[k] {
+					continue
+				}
+				seen[k] = true
+			}
 		}
 		blocked := false
 		for i := cur.i; i < len(cur.b.Instrs); i++ {
@@ -594,8 +638,70 @@ func reachAvoiding(from ssa.Instruction, startBlock *ssa.BasicBlock,
 		if blocked {
 			continue
 		}
-		for _, s := range cur.b.Succs {
-			queue = append(queue, start{s, 0})
+		env := envs[cur.env]
+		succs := cur.b.Succs
+		if len(succs) == 2 && len(cur.b.Instrs) > 0 {
+			if iff, ok := cur.b.Instrs[len(cur.b.Instrs)-1].(*ssa.If); ok {
+				inner, neg := unwrapBool(iff.Cond)
+				if ph, isPhi := inner.(*ssa.Phi); isPhi {
+					if v, known := env[ph]; known {
+						if v != neg {
+							succs = succs[:1]
+						} else {
+							succs = succs[1:]
+						}
+					}
+				}
+			}
+		}
+		for _, s := range succs {
+			next := env
+			if precise {
+				// values of the boolean phis of s on the edge cur.b → s
+				var upd map[*ssa.Phi]bool
+				for _, ins := range s.Instrs {
+					ph, isPhi := ins.(*ssa.Phi)
+					if !isPhi {
+						break
+					}
+					if !isBool(ph.Type()) {
+						continue
+					}
+					val, known := false, false
+					for k, pb := range s.Preds {
+						if pb != cur.b || k >= len(ph.Edges) {
+							continue
+						}
+						e := ph.Edges[k]
+						if cv, isC := constBool(e); isC {
+							val, known = cv, true
+						} else if q, isQ := e.(*ssa.Phi); isQ {
+							if qv, has := env[q]; has {
+								val, known = qv, true
+							}
+						}
+						break
+					}
+					if upd == nil {
+						upd = map[*ssa.Phi]bool{}
+						for p0, v0 := range env {
+							upd[p0] = v0
+						}
+					}
+					if known {
+						upd[ph] = val
+					} else {
+						delete(upd, ph)
+					}
+				}
+				if upd != nil {
+					if len(upd) > 6 {
+						upd = map[*ssa.Phi]bool{}
+					}
+					next = upd
+				}
+			}
+			queue = append(queue, state{s, 0, keyOf(next)})
 		}
 	}
 	return nil
